@@ -20,8 +20,8 @@ Qed.
 
 Lemma sch_exec_wf_string s : sch_exec_wf s = true -> sch_has_string s.
 Proof.
-  unfold sch_exec_wf. intros H. apply andb_true_iff in H. destruct H as [_ H].
-  destruct (sch_get_type s td_String) as [t|]; [|discriminate]. destruct t; try discriminate. now eexists _, _, _, _.
+  unfold sch_exec_wf, sch_has_string. intros H. apply andb_true_iff in H. destruct H as [_ H].
+  destruct (sch_get_type s td_String) as [t|]; [|discriminate]. destruct t; try discriminate. repeat eexists.
 Qed.
 
 (* the selections of the operation, on the root type *)
